@@ -253,7 +253,7 @@ async fn observe(w: &World, si: usize) {
         kvl("hp", handled.iter().map(|x| x.1 as i64).collect()),
         kvs("hk", &handled.iter().map(|x| x.0.clone()).collect::<Vec<_>>().join(",")),
     ];
-    kv.push(kvi("hq", 0));
+    kv.push(kvi("hq", Q_HANDLED.swap(0, std::sync::atomic::Ordering::SeqCst) as i64));
     verif::emit_kv("obs.after", 0, 0, kv);
 }
 
@@ -287,8 +287,11 @@ impl Actor for LogProbe {
 
 static RUN_SEQ: std::sync::atomic::AtomicU64 = std::sync::atomic::AtomicU64::new(0);
 
+static LATE_Q: std::sync::atomic::AtomicU64 = std::sync::atomic::AtomicU64::new(0);
+
 async fn adversary(sc: Script, pids: Arc<Mutex<(u64, u64)>>) {
     let tag = RUN_SEQ.fetch_add(1, std::sync::atomic::Ordering::SeqCst);
+    Q_HANDLED.store(0, std::sync::atomic::Ordering::SeqCst);
     let plog = Arc::new(Mutex::new(vec![]));
     let Ok((p, _)) = Actor::spawn(None, LogProbe { log: plog.clone() }, ()).await else { return };
     let Ok((q, _)) = Actor::spawn(None, QProbe { name: "Q".into() }, ()).await else { return };
@@ -341,6 +344,7 @@ async fn adversary(sc: Script, pids: Arc<Mutex<(u64, u64)>>) {
         verif::emit_kv("obs.open", 0, 0, vec![kvs("s", &format!("s{}", si + 1)), kvs("role", if *is_server { "server" } else { "client" })]);
         observe(&w, si).await;
     }
+    LATE_Q.store(0, std::sync::atomic::Ordering::SeqCst);
     let peer = |si: usize| format!("peer{}@x", (b'A' + si as u8) as char);
     let mut serial = 0u32;
     let mut dirty = vec![false; sc.roles.len()];
@@ -399,10 +403,22 @@ async fn adversary(sc: Script, pids: Arc<Mutex<(u64, u64)>>) {
             "node" => {
                 serial += 1;
                 n = serial;
+                if serial == 1 {
+                    // a second non-remotable actor, spawned now: whatever session is authenticated by now gets its
+                    // pid-lifecycle event (sessions listen to those from authentication on)
+                    if let Ok((q2, _)) = Actor::spawn(None, QProbe { name: "Q".into() }, ()).await {
+                        LATE_Q.store(q2.get_id().pid(), std::sync::atomic::Ordering::SeqCst);
+                    }
+                    barrier().await;
+                }
                 let (pp, qq) = *pids.lock().unwrap();
                 let to = match s.p {
                     "adv" => pp,
-                    "nonrem" => qq,
+                    // the non-remotable target: the one that existed before the sessions, or the later one
+                    "nonrem" => {
+                        let late = LATE_Q.load(std::sync::atomic::Ordering::SeqCst);
+                        if serial % 2 == 1 && late != 0 { late } else { qq }
+                    }
                     "r1" => R1,
                     _ => 0xFFFF_FFF0,
                 };
